@@ -1,6 +1,599 @@
-(** C16 — lemmas (work in progress) *)
+(** C16 — lemmas: induction principle for the rose tree, and the PragmaAttacher / PragmaDetacher part. *)
 From Coq Require Import ZArith List Bool String Ascii Arith Lia.
 From LV Require Import Base.Strings models.M_C16.
 Import ListNotations.
-Lemma up_attr_idem a : up_attr (up_attr a) = up_attr a.
-Proof. destruct a; reflexivity. Qed.
+Open Scope list_scope.
+
+(** * Induction principle for trees with nested lists *)
+Section TreeInd.
+  Variable P : tree -> Prop.
+  Hypothesis HP : forall p, P (TP p).
+  Hypothesis HN : forall i k a b d ss ms,
+      Forall (Forall P) ss -> Forall (Forall P) ms -> P (TN i k a b d ss ms).
+  Hypothesis HR : forall s e d b, Forall P b -> P (TR s e d b).
+
+  Fixpoint tree_ind' (t : tree) : P t :=
+    let go2 := fix go2 (l : list tree) : Forall P l :=
+                 match l with
+                 | [] => Forall_nil _
+                 | x :: r => Forall_cons x (tree_ind' x) (go2 r)
+                 end in
+    let go := fix go (l : list (list tree)) : Forall (Forall P) l :=
+                match l with
+                | [] => Forall_nil _
+                | s :: r => Forall_cons s (go2 s) (go r)
+                end in
+    match t with
+    | TP p => HP p
+    | TN i k a b d ss ms => HN i k a b d ss ms (go ss) (go ms)
+    | TR s e d b => HR s e d b (go2 b)
+    end.
+End TreeInd.
+
+(** * small list facts *)
+Lemma map_ext_Forall {A B} (f g : A -> B) l : Forall (fun x => f x = g x) l -> map f l = map g l.
+Proof. induction 1; cbn; congruence. Qed.
+
+Lemma flat_map_ext_Forall {A B} (f g : A -> list B) l : Forall (fun x => f x = g x) l -> flat_map f l = flat_map g l.
+Proof. induction 1; cbn; congruence. Qed.
+
+Lemma forallb_Forall {A} (f : A -> bool) l : forallb f l = true <-> Forall (fun x => f x = true) l.
+Proof.
+  induction l as [|x r IH]; cbn.
+  - split; auto.
+  - rewrite andb_true_iff, IH. split.
+    + intros [? ?]; constructor; auto.
+    + intros H; inversion H; auto.
+Qed.
+
+Lemma Forall_and_impl {A} (P Q R : A -> Prop) l :
+  Forall P l -> Forall Q l -> (forall x, P x -> Q x -> R x) -> Forall R l.
+Proof. induction 1; intros HQ HR; inversion HQ; subst; constructor; auto. Qed.
+
+Lemma flat_map_map {A B C} (f : B -> list C) (g : A -> B) l : flat_map f (map g l) = flat_map (fun x => f (g x)) l.
+Proof. induction l; cbn; congruence. Qed.
+
+Lemma map_flat_map {A B C} (f : B -> C) (g : A -> list B) l : map f (flat_map g l) = flat_map (fun x => map f (g x)) l.
+Proof. induction l; cbn; [reflexivity|]. now rewrite map_app, IHl. Qed.
+
+Lemma deep_unfold f t :
+  deep f t = f t && match t with
+                    | TP _ => true
+                    | TN _ _ _ _ _ ss ms => forallb (forallb (deep f)) ss && forallb (forallb (deep f)) ms
+                    | TR _ _ _ b => forallb (deep f) b
+                    end.
+Proof. destruct t; reflexivity. Qed.
+
+(** * 1. PragmaAttacher / PragmaDetacher *)
+
+Section PragmaPass.
+  Variable nt : kind -> bool.
+  Variable pf : bool.
+
+  Lemma det_pass_TP l : det_pass nt pf (map TP l) = map TP l.
+  Proof. induction l; cbn; [reflexivity|]. unfold det_pass in IHl. now rewrite IHl. Qed.
+
+  Lemma det_pass_app a b : det_pass nt pf (a ++ b) = det_pass nt pf a ++ det_pass nt pf b.
+  Proof. unfold det_pass. apply flat_map_app. Qed.
+
+  (** ** the tuple pass, for a view [f] of the nodes ([up_top] or the identity) *)
+  Section View.
+    Variable f : tree -> tree.
+    Hypothesis f_TP : forall p, f (TP p) = TP p.
+
+    Definition fTP (p : prag) : tree := TP p.
+
+    Lemma map_f_TP l : map f (map TP l) = map TP l.
+    Proof. induction l; cbn; [reflexivity|]. now rewrite f_TP, IHl. Qed.
+
+    (** the element in the [last] position can still receive a [pragma_post] *)
+    Definition Lok (y : tree) : Prop :=
+      pf = true -> is_nt nt y = true -> forall l, l <> [] ->
+      map f (det1 nt pf (set_post y l)) = map f (det1 nt pf y) ++ map TP l.
+
+    Definition G (x : tree) : Prop :=
+      map f (det1 nt pf x) = [f x] /\ Lok x /\
+      (is_nt nt x = true -> forall l, l <> [] ->
+         map f (det1 nt pf (set_pre x l)) = map TP l ++ [f x] /\ Lok (set_pre x l)).
+
+    Lemma G_TP p : G (TP p).
+    Proof.
+      split; [cbn; reflexivity|]. split.
+      - intros _ H; discriminate.
+      - intros H; discriminate.
+    Qed.
+
+    Lemma det_pass_cons x l : det_pass nt pf (x :: l) = det1 nt pf x ++ det_pass nt pf l.
+    Proof. reflexivity. Qed.
+    Lemma det_pass_nil : det_pass nt pf [] = [].
+    Proof. reflexivity. Qed.
+
+    (** what the state stands for *)
+    Definition V (s : pst) : list tree :=
+      map f (det_pass nt pf (done s ++ olist (last s))) ++ map TP (pend s).
+
+    Ltac nrm :=
+      unfold V, push; cbn [done last pend olist];
+      rewrite ?det_pass_app, ?det_pass_cons, ?det_pass_nil, ?det_pass_TP, ?map_app, ?map_f_TP, ?app_nil_r;
+      rewrite <- ?app_assoc.
+
+    Lemma att_step_nonpragma s x :
+      not_pragma x = true ->
+      att_step nt pf s x =
+      match pend s with
+      | [] => push s x
+      | _ :: _ =>
+        if is_nt nt x then push s (set_pre x (pend s))
+        else match last s with
+             | Some y => if pf && is_nt nt y && has_post y
+                         then push (mkSt (done s) (Some (set_post y (pend s))) []) x
+                         else push (mkSt (done s ++ [y] ++ map TP (pend s)) None []) x
+             | None => push (mkSt (done s ++ map TP (pend s)) None []) x
+             end
+      end.
+    Proof.
+      destruct x; cbn; [discriminate| |]; intros _; [reflexivity|].
+      destruct (pend s); reflexivity.
+    Qed.
+
+    Lemma att_step_view s x :
+      G x -> (forall y, last s = Some y -> Lok y) ->
+      V (att_step nt pf s x) = V s ++ [f x] /\ (forall y, last (att_step nt pf s x) = Some y -> Lok y).
+    Proof.
+      intros [G1 [G2 G3]] Hl.
+      destruct (not_pragma x) eqn:Enp.
+      - rewrite (att_step_nonpragma s x Enp). unfold V.
+        destruct (pend s) as [|p ps] eqn:Ep.
+        + split.
+          * nrm. rewrite G1. reflexivity.
+          * cbn. intros y Hy. inversion Hy; subst; assumption.
+        + destruct (is_nt nt x) eqn:Ent.
+          * destruct (G3 eq_refl (p :: ps)) as [G3a G3b]; [discriminate|]. split.
+            -- nrm. rewrite G3a. now rewrite <- ?app_assoc.
+            -- cbn. intros y Hy. inversion Hy; subst; assumption.
+          * destruct (last s) as [y0|] eqn:El.
+            -- destruct (pf && is_nt nt y0 && has_post y0) eqn:Ec.
+               ++ apply andb_true_iff in Ec as [Ec E3]. apply andb_true_iff in Ec as [E1 E2]. split.
+                  ** nrm. rewrite G1. rewrite (Hl y0 eq_refl E1 E2) by discriminate.
+                     now rewrite <- ?app_assoc.
+                  ** cbn. intros y Hy. inversion Hy; subst; assumption.
+               ++ split.
+                  ** nrm. rewrite G1. reflexivity.
+                  ** cbn. intros y Hy. inversion Hy; subst; assumption.
+            -- split.
+               ++ nrm. rewrite G1. reflexivity.
+               ++ cbn. intros y Hy. inversion Hy; subst; assumption.
+      - destruct x as [p| |]; try discriminate. split.
+        + cbn [att_step]. nrm. rewrite f_TP. reflexivity.
+        + cbn. assumption.
+    Qed.
+
+    Lemma att_finish_view s :
+      (forall y, last s = Some y -> Lok y) ->
+      map f (det_pass nt pf (att_finish nt pf s)) = V s.
+    Proof.
+      intros Hl. unfold att_finish, V.
+      destruct (pend s) as [|p ps] eqn:Ep.
+      - nrm. destruct (last s); reflexivity.
+      - destruct (last s) as [y|] eqn:El.
+        + destruct (pf && is_nt nt y) eqn:Ec.
+          * apply andb_true_iff in Ec as [E1 E2]. nrm.
+            rewrite (Hl y eq_refl E1 E2) by discriminate. reflexivity.
+          * nrm. reflexivity.
+        + nrm. reflexivity.
+    Qed.
+
+    Lemma att_run_view rest : forall s,
+        Forall G rest ->
+        (forall y, last s = Some y -> Lok y) ->
+        map f (det_pass nt pf (att_run nt pf rest s)) = V s ++ map f rest.
+    Proof.
+      induction rest as [|x r IH]; intros s HG Hl.
+      - cbn [att_run map]. rewrite app_nil_r. now apply att_finish_view.
+      - inversion HG as [|? ? Gx Gr]; subst.
+        destruct (att_step_view s x Gx Hl) as [E1 E2].
+        cbn [att_run map]. rewrite IH by assumption. rewrite E1. now rewrite <- app_assoc.
+    Qed.
+
+    Lemma att_pass_view l : Forall G l -> map f (det_pass nt pf (att_pass nt pf l)) = map f l.
+    Proof.
+      intros H. unfold att_pass. rewrite att_run_view; [reflexivity|assumption|].
+      cbn. discriminate.
+    Qed.
+  End View.
+
+  (** ** the two instances *)
+  Lemma map_up_top_TP l : map up_top (map TP l) = map TP l.
+  Proof. induction l; cbn; congruence. Qed.
+
+  Lemma attr_free_up a : attr_free a = true -> up_attr a = ANone.
+  Proof. destruct a; cbn; congruence. Qed.
+
+  Ltac g_cases lemTP :=
+    unfold G, Lok; cbn [is_nt set_pre set_post det1];
+    repeat match goal with H : nt _ = _ |- _ => rewrite ?H end;
+    repeat match goal with H : pf = _ |- _ => rewrite ?H end;
+    repeat split; intros;
+    repeat match goal with
+           | H : ?l <> [] |- _ => destruct l as [|? ?]; [congruence|clear H]
+           end;
+    try congruence;
+    cbn [fst snd app map up_top up_attr];
+    do 3 (rewrite ?map_app, ?lemTP, ?map_id; cbn [fst snd app map up_top up_attr]);
+    rewrite <- ?app_assoc; try reflexivity.
+
+  Lemma G_up_top x : npa_top nt pf x = true -> G up_top x.
+  Proof.
+    destruct x as [p|i k a b d ss ms|s e d b]; intros H.
+    - apply G_TP; reflexivity.
+    - cbn in H. destruct (nt k) eqn:Ek.
+      + destruct a as [| |la], b as [| |lb], pf eqn:Epf; cbn in H; try discriminate H;
+          g_cases map_up_top_TP.
+      + g_cases map_up_top_TP.
+    - g_cases map_up_top_TP.
+  Qed.
+
+  Lemma attr_is_none_eq a : attr_is_none a = true -> a = ANone.
+  Proof. destruct a; cbn; congruence. Qed.
+
+  Lemma G_id x : clean_top nt pf x = true -> G (fun t => t) x.
+  Proof.
+    destruct x as [p|i k a b d ss ms|s e d b]; intros H.
+    - apply G_TP; reflexivity.
+    - cbn in H. destruct (nt k) eqn:Ek.
+      + destruct a as [| |la], b as [| |lb], pf eqn:Epf; cbn in H; try discriminate H;
+          g_cases map_up_top_TP.
+      + g_cases map_up_top_TP.
+    - g_cases map_up_top_TP.
+  Qed.
+
+  Lemma det_att_pass_up l :
+    Forall (fun x => npa_top nt pf x = true) l ->
+    map up_top (det_pass nt pf (att_pass nt pf l)) = map up_top l.
+  Proof.
+    intros H. apply att_pass_view; [reflexivity|].
+    eapply Forall_impl; [|exact H]. intros x. apply G_up_top.
+  Qed.
+
+  Lemma det_att_pass_id l :
+    Forall (fun x => clean_top nt pf x = true) l ->
+    det_pass nt pf (att_pass nt pf l) = l.
+  Proof.
+    intros H.
+    pose proof (att_pass_view (fun t => t) (fun p => eq_refl) l) as E.
+    rewrite !map_id in E. apply E.
+    eapply Forall_impl; [|exact H]. intros x. apply G_id.
+  Qed.
+
+  (** ** the tuple pass commutes with any map that leaves the top of every element alone *)
+  Definition top_preserving (g : tree -> tree) : Prop :=
+    (forall p, g (TP p) = TP p) /\
+    (forall i k a b d ss ms, exists ss' ms', g (TN i k a b d ss ms) = TN i k a b d ss' ms') /\
+    (forall s e d b, exists b', g (TR s e d b) = TR s e d b') /\
+    (forall x l, g (set_pre x l) = set_pre (g x) l) /\
+    (forall x l, g (set_post x l) = set_post (g x) l).
+
+  Definition map_st (g : tree -> tree) (s : pst) : pst :=
+    mkSt (map g (done s)) (option_map g (last s)) (pend s).
+
+  Lemma tp_is_nt g x : top_preserving g -> is_nt nt (g x) = is_nt nt x.
+  Proof.
+    intros (H1 & H2 & H3 & _). destruct x as [p|i k a b d ss ms|s e d b].
+    - now rewrite H1.
+    - destruct (H2 i k a b d ss ms) as (ss' & ms' & E). now rewrite E.
+    - destruct (H3 s e d b) as (b' & E). now rewrite E.
+  Qed.
+
+  Lemma tp_has_post g x : top_preserving g -> has_post (g x) = has_post x.
+  Proof.
+    intros (H1 & H2 & H3 & _). destruct x as [p|i k a b d ss ms|s e d b].
+    - now rewrite H1.
+    - destruct (H2 i k a b d ss ms) as (ss' & ms' & E). now rewrite E.
+    - destruct (H3 s e d b) as (b' & E). now rewrite E.
+  Qed.
+
+  Lemma olist_map {A B} (g : A -> B) o : olist (option_map g o) = map g (olist o).
+  Proof. destruct o; reflexivity. Qed.
+
+  Lemma map_map_TP g l : (forall p, g (TP p) = TP p) -> map g (map TP l) = map TP l.
+  Proof. intros H. induction l; cbn; [reflexivity|]. now rewrite H, IHl. Qed.
+
+  Lemma tp_not_pragma g x : top_preserving g -> not_pragma (g x) = not_pragma x.
+  Proof.
+    intros (H1 & H2 & H3 & _). destruct x as [p|i k a b d ss ms|s e d b].
+    - now rewrite H1.
+    - destruct (H2 i k a b d ss ms) as (ss' & ms' & E). now rewrite E.
+    - destruct (H3 s e d b) as (b' & E). now rewrite E.
+  Qed.
+
+  Lemma att_step_commute g s x :
+    top_preserving g -> att_step nt pf (map_st g s) (g x) = map_st g (att_step nt pf s x).
+  Proof.
+    intros Hg. pose proof Hg as (H1 & H2 & H3 & H4 & H5).
+    destruct (not_pragma x) eqn:Enp.
+    - assert (Enp' : not_pragma (g x) = true) by (now rewrite tp_not_pragma).
+      rewrite (att_step_nonpragma _ _ Enp'), (att_step_nonpragma _ _ Enp).
+      cbn [map_st pend last done].
+      rewrite (tp_is_nt g x Hg).
+      destruct (pend s) as [|p ps] eqn:Ep.
+      + unfold push, map_st; cbn [done last pend option_map]. now rewrite map_app, olist_map.
+      + destruct (is_nt nt x).
+        * unfold push, map_st; cbn [done last pend option_map]. now rewrite map_app, olist_map, H4.
+        * destruct (last s) as [y|]; cbn [option_map].
+          -- rewrite (tp_is_nt g y Hg), (tp_has_post g y Hg).
+             destruct (pf && is_nt nt y && has_post y);
+               unfold push, map_st; cbn [done last pend olist option_map];
+               rewrite !map_app, ?(map_map_TP g _ H1); cbn [map]; now rewrite ?H5.
+          -- unfold push, map_st; cbn [done last pend olist option_map].
+             rewrite !map_app, ?(map_map_TP g _ H1). reflexivity.
+    - destruct x as [p| |]; try discriminate. rewrite H1. reflexivity.
+  Qed.
+
+  Lemma att_finish_commute g s :
+    top_preserving g -> att_finish nt pf (map_st g s) = map g (att_finish nt pf s).
+  Proof.
+    intros Hg. pose proof Hg as (H1 & H2 & H3 & H4 & H5).
+    unfold att_finish, map_st. cbn [done last pend].
+    destruct (pend s) as [|p ps]; destruct (last s) as [y|]; cbn [option_map olist].
+    - rewrite !map_app. reflexivity.
+    - rewrite !map_app. reflexivity.
+    - rewrite (tp_is_nt g y Hg). destruct (pf && is_nt nt y).
+      + rewrite map_app. cbn. now rewrite H5.
+      + rewrite !map_app, (map_map_TP g _ H1). reflexivity.
+    - rewrite !map_app, (map_map_TP g _ H1). reflexivity.
+  Qed.
+
+  Lemma att_run_commute g l : forall s,
+      top_preserving g -> att_run nt pf (map g l) (map_st g s) = map g (att_run nt pf l s).
+  Proof.
+    induction l as [|x r IH]; intros s Hg; cbn [att_run map].
+    - now apply att_finish_commute.
+    - rewrite att_step_commute by assumption. now apply IH.
+  Qed.
+
+  Lemma att_pass_commute g l : top_preserving g -> att_pass nt pf (map g l) = map g (att_pass nt pf l).
+  Proof. intros Hg. unfold att_pass. now rewrite <- att_run_commute. Qed.
+End PragmaPass.
+
+Lemma attP_top_preserving nt pf : top_preserving (attP nt pf).
+Proof.
+  repeat split.
+  - intros; cbn; eauto.
+  - intros; cbn; eauto.
+  - intros x l; destruct x; reflexivity.
+  - intros x l; destruct x; reflexivity.
+Qed.
+
+Lemma detP_top_preserving nt df : top_preserving (detP nt df).
+Proof.
+  repeat split.
+  - intros; cbn; eauto.
+  - intros; cbn; eauto.
+  - intros x l; destruct x; reflexivity.
+  - intros x l; destruct x; reflexivity.
+Qed.
+
+Lemma npa_top_detP_attP nt pf x : npa_top nt pf (detP nt pf (attP nt pf x)) = npa_top nt pf x.
+Proof. destruct x; reflexivity. Qed.
+
+Lemma up_up_top x : up (up_top x) = up x.
+Proof. destruct x; cbn; [reflexivity| |reflexivity]. destruct pre, post; reflexivity. Qed.
+
+Lemma map_up_up_top l : map up (map up_top l) = map up l.
+Proof. rewrite map_map. apply map_ext. apply up_up_top. Qed.
+
+(** one tuple of the tree *)
+Lemma slot_roundtrip_up nt pf s :
+  Forall (fun t => no_preattached nt pf t = true -> up (detP nt pf (attP nt pf t)) = up t) s ->
+  forallb (no_preattached nt pf) s = true ->
+  map up (det_pass nt pf (map (detP nt pf) (att_pass nt pf (map (attP nt pf) s)))) = map up s.
+Proof.
+  intros IH Hs. apply forallb_Forall in Hs.
+  rewrite <- att_pass_commute by apply detP_top_preserving.
+  rewrite map_map.
+  rewrite <- map_up_up_top. rewrite det_att_pass_up.
+  - rewrite map_up_up_top, map_map. apply map_ext_Forall.
+    eapply Forall_and_impl; [exact IH|exact Hs|]. cbn. auto.
+  - rewrite Forall_map. eapply Forall_impl; [|exact Hs].
+    intros x Hx. rewrite npa_top_detP_attP. unfold no_preattached in Hx. rewrite deep_unfold in Hx.
+    now apply andb_true_iff in Hx as [? _].
+Qed.
+
+Lemma detach_attach_up nt pf t :
+  no_preattached nt pf t = true -> up (detP nt pf (attP nt pf t)) = up t.
+Proof.
+  induction t as [p|i k a b d ss ms IHs IHm|s e d b IHb] using tree_ind'; intros H.
+  - reflexivity.
+  - unfold no_preattached in H. rewrite deep_unfold in H.
+    apply andb_true_iff in H as [_ H]. apply andb_true_iff in H as [Hss Hms].
+    cbn. f_equal.
+    + rewrite !map_map. apply map_ext_Forall.
+      apply forallb_Forall in Hss.
+      eapply Forall_and_impl; [exact IHs|exact Hss|]. cbn. intros s0 IH0 H0.
+      now apply slot_roundtrip_up.
+    + rewrite !map_map. apply map_ext_Forall.
+      apply forallb_Forall in Hms.
+      eapply Forall_and_impl; [exact IHm|exact Hms|]. cbn. intros s0 IH0 H0.
+      now apply slot_roundtrip_up.
+  - unfold no_preattached in H. rewrite deep_unfold in H.
+    apply andb_true_iff in H as [_ H].
+    cbn. f_equal. now apply slot_roundtrip_up.
+Qed.
+
+Lemma slot_roundtrip_id nt pf s :
+  Forall (fun t => clean nt pf t = true -> detP nt pf (attP nt pf t) = t) s ->
+  forallb (clean nt pf) s = true ->
+  det_pass nt pf (map (detP nt pf) (att_pass nt pf (map (attP nt pf) s))) = s.
+Proof.
+  intros IH Hs. apply forallb_Forall in Hs.
+  rewrite <- att_pass_commute by apply detP_top_preserving.
+  rewrite map_map.
+  assert (E : map (fun x => detP nt pf (attP nt pf x)) s = s).
+  { rewrite <- (map_id s) at 2. apply map_ext_Forall.
+    eapply Forall_and_impl; [exact IH|exact Hs|]. cbn. auto. }
+  rewrite E. apply det_att_pass_id.
+  eapply Forall_impl; [|exact Hs].
+  intros x Hx. unfold clean in Hx. rewrite deep_unfold in Hx. now apply andb_true_iff in Hx as [? _].
+Qed.
+
+Lemma detach_attach_strict nt pf t :
+  clean nt pf t = true -> detP nt pf (attP nt pf t) = t.
+Proof.
+  induction t as [p|i k a b d ss ms IHs IHm|s e d b IHb] using tree_ind'; intros H.
+  - reflexivity.
+  - unfold clean in H. rewrite deep_unfold in H.
+    apply andb_true_iff in H as [_ H]. apply andb_true_iff in H as [Hss Hms].
+    cbn. f_equal.
+    + rewrite map_map. rewrite <- (map_id ss) at 2. apply map_ext_Forall.
+      apply forallb_Forall in Hss.
+      eapply Forall_and_impl; [exact IHs|exact Hss|]. cbn. intros s0 IH0 H0.
+      now apply slot_roundtrip_id.
+    + rewrite map_map. rewrite <- (map_id ms) at 2. apply map_ext_Forall.
+      apply forallb_Forall in Hms.
+      eapply Forall_and_impl; [exact IHm|exact Hms|]. cbn. intros s0 IH0 H0.
+      now apply slot_roundtrip_id.
+  - unfold clean in H. rewrite deep_unfold in H.
+    apply andb_true_iff in H as [_ H].
+    cbn. f_equal. now apply slot_roundtrip_id.
+Qed.
+
+(** ** attaching / detaching pragmas never touches another node: the skeleton is invariant (no hypothesis) *)
+Definition sk (x : tree) : list tree := if not_pragma x then [skel x] else [].
+
+Lemma sk_set_pre x l : sk (set_pre x l) = sk x.
+Proof. destruct x; reflexivity. Qed.
+Lemma sk_set_post x l : sk (set_post x l) = sk x.
+Proof. destruct x; reflexivity. Qed.
+Lemma sk_TPs l : flat_map sk (map TP l) = [].
+Proof. induction l; cbn; auto. Qed.
+
+Section Skeleton.
+  Variable nt : kind -> bool.
+  Variable pf : bool.
+
+  Lemma sk_att_step s x :
+    flat_map sk (done (att_step nt pf s x) ++ olist (last (att_step nt pf s x)))
+    = flat_map sk (done s ++ olist (last s)) ++ sk x.
+  Proof.
+    destruct (not_pragma x) eqn:Enp.
+    - rewrite (att_step_nonpragma nt pf s x Enp).
+      destruct (pend s) as [|p ps].
+      + unfold push; cbn [done last olist]. now rewrite !flat_map_app; cbn; rewrite app_nil_r.
+      + destruct (is_nt nt x).
+        * unfold push; cbn [done last olist]. rewrite !flat_map_app. cbn. now rewrite app_nil_r, sk_set_pre.
+        * destruct (last s) as [y|].
+          -- destruct (pf && is_nt nt y && has_post y); unfold push; cbn [done last olist];
+               rewrite !flat_map_app; cbn [flat_map]; rewrite ?sk_TPs, ?sk_set_post, ?app_nil_r; reflexivity.
+          -- unfold push; cbn [done last olist]. rewrite !flat_map_app. cbn [flat_map].
+             now rewrite ?sk_TPs, ?app_nil_r.
+    - destruct x; try discriminate. cbn. now rewrite app_nil_r.
+  Qed.
+
+  Lemma sk_att_run rest : forall s,
+      flat_map sk (att_run nt pf rest s) = flat_map sk (done s ++ olist (last s)) ++ flat_map sk rest.
+  Proof.
+    induction rest as [|x r IH]; intros s.
+    - cbn [att_run flat_map]. rewrite app_nil_r. unfold att_finish.
+      destruct (pend s) as [|p ps]; destruct (last s) as [y|]; cbn [olist];
+        try destruct (pf && is_nt nt y);
+        rewrite ?flat_map_app; cbn [flat_map]; rewrite ?sk_TPs, ?sk_set_post, ?app_nil_r; reflexivity.
+    - cbn [att_run flat_map]. rewrite IH, sk_att_step. now rewrite <- app_assoc.
+  Qed.
+
+  Lemma sk_att_pass l : flat_map sk (att_pass nt pf l) = flat_map sk l.
+  Proof. unfold att_pass. now rewrite sk_att_run. Qed.
+
+  Lemma sk_detached_part (a : attr) :
+    flat_map sk (fst (match a with ATup (p :: l) => (map TP (p :: l), ANone) | _ => ([], a) end)) = [].
+  Proof. destruct a as [| |[|p l]]; try reflexivity. cbn [fst]. apply sk_TPs. Qed.
+
+  Lemma sk_det1 x : flat_map sk (det1 nt pf x) = sk x.
+  Proof.
+    destruct x as [p|i k a b d ss ms|s e d b]; cbn [det1]; try reflexivity.
+    destruct (nt k); [|reflexivity].
+    rewrite !flat_map_app, sk_detached_part.
+    replace (flat_map sk (fst (if pf then match b with ATup (p :: l) => (map TP (p :: l), ANone) | _ => ([], b) end
+                                else ([], b)))) with (@nil tree).
+    - reflexivity.
+    - destruct pf; [now rewrite sk_detached_part|reflexivity].
+  Qed.
+
+  Lemma sk_det_pass l : flat_map sk (det_pass nt pf l) = flat_map sk l.
+  Proof.
+    unfold det_pass. induction l as [|x r IH]; [reflexivity|].
+    cbn [flat_map]. now rewrite flat_map_app, sk_det1, IH.
+  Qed.
+End Skeleton.
+
+Lemma skel_slot (g : tree -> tree) s :
+  Forall (fun t => skel (g t) = skel t) s ->
+  (forall x, not_pragma (g x) = not_pragma x) ->
+  flat_map sk (map g s) = flat_map sk s.
+Proof.
+  intros IH Hn. rewrite flat_map_map. apply flat_map_ext_Forall.
+  eapply Forall_impl; [|exact IH]. intros x Hx. unfold sk. now rewrite Hn, Hx.
+Qed.
+
+Lemma skel_unfold_slot s : flat_map (fun x => if not_pragma x then [skel x] else []) s = flat_map sk s.
+Proof. reflexivity. Qed.
+
+Lemma attach_preserves_skeleton nt pf t : skel (attP nt pf t) = skel t.
+Proof.
+  induction t as [p|i k a b d ss ms IHs IHm|s e d b IHb] using tree_ind'.
+  - reflexivity.
+  - cbn. f_equal; rewrite map_map; apply map_ext_Forall;
+      (eapply Forall_impl; [|eassumption]); intros s0 IH0; cbn;
+      rewrite !skel_unfold_slot, sk_att_pass; apply skel_slot; auto;
+      intros x; destruct x; reflexivity.
+  - cbn. f_equal. rewrite !skel_unfold_slot, sk_att_pass. apply skel_slot; auto.
+    intros x; destruct x; reflexivity.
+Qed.
+
+Lemma detach_preserves_skeleton nt df t : skel (detP nt df t) = skel t.
+Proof.
+  induction t as [p|i k a b d ss ms IHs IHm|s e d b IHb] using tree_ind'.
+  - reflexivity.
+  - cbn. f_equal; rewrite map_map; apply map_ext_Forall;
+      (eapply Forall_impl; [|eassumption]); intros s0 IH0; cbn;
+      rewrite !skel_unfold_slot, sk_det_pass; apply skel_slot; auto;
+      intros x; destruct x; reflexivity.
+  - cbn. f_equal. rewrite !skel_unfold_slot, sk_det_pass. apply skel_slot; auto.
+    intros x; destruct x; reflexivity.
+Qed.
+
+(** ** attach after detach *)
+Lemma attach_detach_on_image nt pf t0 :
+  clean nt pf t0 = true ->
+  attP nt pf (detP nt pf (attP nt pf t0)) = attP nt pf t0.
+Proof. intros H. now rewrite detach_attach_strict. Qed.
+
+Definition p_ (n : Z) : prag := mkP n n "loki" "foo" false.
+(** a loop that already carries a pragma and has another one in front of it *)
+Definition preattached_witness : tree :=
+  TN 1 KSection NoAttr NoAttr false [[TP (p_ 2); TN 3 KLoop (ATup [p_ 4]) ANone false [[]] []]] [].
+
+Lemma attach_detach_refuted :
+  attP (nt_of [KLoop]) true (detP (nt_of [KLoop]) true preattached_witness) <> preattached_witness.
+Proof. vm_compute. discriminate. Qed.
+
+(** attaching on top of an attached pragma loses it (the attribute is overwritten) *)
+Lemma detach_attach_preattached_refuted :
+  up (detP (nt_of [KLoop]) true (attP (nt_of [KLoop]) true preattached_witness)) <> up preattached_witness
+  /\ doc_prags (attP (nt_of [KLoop]) true preattached_witness) = [p_ 2].
+Proof. vm_compute. split; [discriminate|reflexivity]. Qed.
+
+(** a class without the field: the round trip leaves a dangling [pragma_post = None] attribute *)
+Definition call_witness : tree :=
+  TN 1 KSection NoAttr NoAttr false [[TN 2 KCall ANone NoAttr false [] []; TP (p_ 3)]] [].
+Lemma strict_needs_fields :
+  no_preattached (nt_of [KCall]) true call_witness = true /\
+  detP (nt_of [KCall]) true (attP (nt_of [KCall]) true call_witness)
+  = TN 1 KSection NoAttr NoAttr false [[TN 2 KCall ANone ANone false [] []; TP (p_ 3)]] [].
+Proof. vm_compute. split; reflexivity. Qed.
+
+Example clean_nontrivial :
+  let t := TN 1 KSection NoAttr NoAttr false
+              [[TP (p_ 2); TP (p_ 3); TN 4 KLoop ANone ANone false [[TP (p_ 5); TN 6 KAssign NoAttr NoAttr false [] []]] [];
+                TP (p_ 7); TN 8 KComment NoAttr NoAttr false [] []; TN 9 KLoop ANone ANone false [[]] []; TP (p_ 10)]] [] in
+  clean (nt_of [KLoop]) true t = true /\ attP (nt_of [KLoop]) true t <> t.
+Proof. vm_compute. split; [reflexivity|discriminate]. Qed.
